@@ -422,6 +422,7 @@ func Exec(c Case) *Run {
 			bb = 3
 		}
 		bks.compare(ctx, asked, bnd, len(db), matched > mr, mr, bb, run)
+		bks.afterShutdown(ctx, bnd, run)
 	}
 	// Export / Import
 	ser, _, err := m.Export()
